@@ -274,6 +274,27 @@ def run(ctx, res, prop, profile, n_quick=300, n_thorough=4000, probe_ids=(), ext
                 cand.append((i, b, {"kind": "l2_subquery",
                                     "what": "L2: Model/Cache.v requires_subquery and the real decision differ"}))
                 stats[f"{b}:l2_subquery_mismatch"] += 1
+    # ---- L3: the transcribed compile_ast against the real one (Query record, labels, scope) on every
+    # single-source SQLite case; flat = the case satisfies the hypothesis of sql_compile_correct
+    l3_items = [((i, "sqlite"), o["sqlite"].ast_coq, o["sqlite"].l3) for i, o in enumerate(obs)
+                if o.get("sqlite") is not None and o["sqlite"].l3 is not None]
+    l3_res, l3_err = ({}, [])
+    if l3_items:
+        import sqlcompile
+        l3_res, l3_err = sqlcompile.evaluate(prop.lower(), l3_items)
+        if not ctx.build_ok and l3_err:
+            l3_res, l3_err = {}, []
+        for e in l3_err:
+            res.violations.append({"what": "L3 correspondence cases did not evaluate in Coq", "found_input": False,
+                                   "payload": {"correspondence": f"{prop} L3 (Model/SqlCompile.v)", "error": e}})
+        for (i, b), (dom, diff, fl) in l3_res.items():
+            stats[f"sqlite:L3:{'not modelled' if not dom else 'differs' if diff else 'equal'}"] += 1
+            if dom and fl:
+                stats["sqlite:L3:satisfies flat_ok (compile-correctness theorem applies)"] += 1
+            if diff:
+                cand.append((i, b, {"kind": "l3", "fields": diff,
+                                    "what": "L3: Model/SqlCompile.compile and the real SqlImpl.compile_ast differ in "
+                                            + ", ".join(sqlcompile.FIELD.get(x, str(x)) for x in diff)}))
     # ---- shrink, match known findings, report
     hit = collections.Counter()
     reported = 0
@@ -289,7 +310,7 @@ def run(ctx, res, prop, profile, n_quick=300, n_thorough=4000, probe_ids=(), ext
             continue
         if sig in seen_sig:
             continue
-        if f["kind"].startswith("l2_"):
+        if f["kind"].startswith("l2_") or f["kind"] == "l3":
             seen_sig.add(sig)
             found = search_failing_input(cases[i], b, ctx)
             if found is not None and findings.match(found[0], found[1], found[2], listed) is None:
@@ -305,7 +326,8 @@ def run(ctx, res, prop, profile, n_quick=300, n_thorough=4000, probe_ids=(), ext
             res.violations.append({"what": f"{f['what']} [{origin[i]}]", "found_input": False,
                                    "payload": {"correspondence": f["what"], "case": cases[i], "backend": b,
                                                "origin": origin[i], "failure": f,
-                                               "theorems_resting_on_it": "Properties/C08.v, C09.v, C11.v (Cache model)"}})
+                                               "theorems_resting_on_it": "Properties/C01.v sql_compile_correct (compile model)"
+                                               if f["kind"] == "l3" else "Properties/C08.v, C09.v, C11.v (Cache model)"}})
             reported += 1
             continue
         try:
@@ -354,6 +376,8 @@ def run(ctx, res, prop, profile, n_quick=300, n_thorough=4000, probe_ids=(), ext
     cov = res.coverage
     res.traces += sum(1 for v in verdicts.values() if v == 0)
     cov["cases_satisfying_wf_hypothesis"] = cov.get("cases_satisfying_wf_hypothesis", 0) + sum(pipecheck.WF.values())
+    cov["l3_compile_model_equal"] = cov.get("l3_compile_model_equal", 0) + sum(1 for v in l3_res.values() if v[0] and not v[1])
+    cov["l3_cases_satisfying_flat_ok"] = cov.get("l3_cases_satisfying_flat_ok", 0) + sum(1 for v in l3_res.values() if v[0] and v[2])
     cov["l2_cache_traces_equal"] = cov.get("l2_cache_traces_equal", 0) + sum(1 for k, v in l2.items() if v[0] == 0 and verdicts.get(k) != 7)
     if l2_steps:
         cov["l2_subquery_decisions_compared"] = cov.get("l2_subquery_decisions_compared", 0) + sum(
